@@ -89,8 +89,11 @@ def handle (j : Json) : Except String Json := do
     let v ← pCVal (← j.getObjVal? "native")
     let px ← getStr j "px"
     let env ← (← pPairs j "env").mapM (fun (k, v) => do pure (k, ← v.getStr?))
+    -- "both": the native value in code AND another text in DEEP_<key> (the code value must decide)
+    let t2 := (← getOptStr j "text2").getD t
     pure (Json.mkObj [("code", jUse ((World.mk [(k, v)] env px).use k)),
-                      ("env", jUse ((World.mk [] (("DEEP_" ++ k, t) :: env) px).use k))])
+                      ("env", jUse ((World.mk [] (("DEEP_" ++ k, t) :: env) px).use k)),
+                      ("both", jUse ((World.mk [(k, v)] (("DEEP_" ++ k, t2) :: env) px).use k))])
   | "frameseq" =>
     -- configurations used one after the other in one process: each is judged on its own (the model has no state)
     let rs ← (← getArr j "steps").toList.mapM handleFrame
